@@ -202,6 +202,45 @@ def to_py(v):
     return float(v)
 
 
+class ieee_rtn_zero:
+    """Runs the real interpreter with ONE documented deviation: an exactly cancelled sum under roundTowardNegative is -0 (IEEE 754 6.3),
+    as the hardware the compiled code runs on makes it.  Used only to attribute a disagreement to the known finding."""
+
+    def __enter__(self):
+        from fpy2.number.engine.gmp import MPFREngine
+        from fpy2.number.round import RoundingMode
+        from fpy2.number import Float
+        self.cls = MPFREngine
+        self.saved = {n: getattr(MPFREngine, n) for n in ('add', 'sub', 'fma')}
+
+        def fix(r, ctx, pos_zero):
+            if (r is not None and getattr(ctx, 'rm', None) is RoundingMode.RTN and r.is_zero() and not r.s and not r.inexact and not pos_zero):
+                return Float(s=True, ctx=r.ctx)
+            return r
+
+        def pz(v):
+            return v.is_zero() and not v.s
+        sv = self.saved
+
+        def add(self_, x, y, ctx):
+            r = sv['add'](self_, x, y, ctx)
+            return fix(r, ctx, pz(x) and pz(y)) if r is not None else r
+
+        def sub(self_, x, y, ctx):
+            r = sv['sub'](self_, x, y, ctx)
+            return fix(r, ctx, pz(x) and y.is_zero() and y.s) if r is not None else r
+
+        def fma(self_, x, y, z, ctx):
+            r = sv['fma'](self_, x, y, z, ctx)
+            return fix(r, ctx, (x.is_zero() or y.is_zero()) and x.s == y.s and pz(z)) if r is not None else r
+        MPFREngine.add, MPFREngine.sub, MPFREngine.fma = add, sub, fma
+        return self
+
+    def __exit__(self, *a):
+        for n, f in self.saved.items():
+            setattr(self.cls, n, f)
+
+
 def options(tier):
     U = fp.CppCompiler.UnboxMode
     base = [dict(optimize=True, unbox=U.ALLOW, arrays=True), dict(optimize=False, unbox=U.NEVER, arrays=True),
@@ -241,7 +280,14 @@ def record(job):
                     exp = to_py(f(args[0], args[1], list(args[2]), ctx=fp.FP64))
                 except Exception:       # noqa: BLE001
                     continue
-                samples.append((args, exp, o))
+                exp2 = None
+                if 'RTN' in src:
+                    try:
+                        with ieee_rtn_zero():
+                            exp2 = to_py(f(args[0], args[1], list(args[2]), ctx=fp.FP64))
+                    except Exception:       # noqa: BLE001
+                        exp2 = None
+                samples.append((args, exp, o, exp2))
             if not samples:
                 continue
             try:
@@ -251,7 +297,7 @@ def record(job):
             for oi, opt in enumerate(options(tier)):
                 comp = fp.CppCompiler(unsafe_cast_int=True, **opt)
                 try:
-                    cpp = infra._emit_driver(Path(work), 'c11', comp, f, arg_types, [(a, e) for a, e, _ in samples], suffix=f'_{oi}')
+                    cpp = infra._emit_driver(Path(work), 'c11', comp, f, arg_types, [(a, e) for a, e, _, _ in samples], suffix=f'_{oi}')
                 except Exception as e:      # noqa: BLE001  -- the backend refuses the program under these options
                     stats[f'backend-refused:{type(e).__name__}'] += 1
                     continue
@@ -268,7 +314,7 @@ def record(job):
                 except subprocess.TimeoutExpired:
                     lines, rc = [], -9
                 ins = []
-                for si, (args, exp, o) in enumerate(samples):
+                for si, (args, exp, o, exp2) in enumerate(samples):
                     if rc != 0 or si >= len(lines):
                         bj = {'err': f'driver-exit-{rc}'}
                     else:
@@ -281,7 +327,13 @@ def record(job):
                         aj = {'val': value_json(exp)}
                     except (OutOfDomain, Unsupported):
                         continue
-                    pairs.append({'a': aj, 'b': bj, 'src': src, 'opt': str(opt), 'args': repr(args), 'name': name})
+                    rec = {'a': aj, 'b': bj, 'src': src, 'opt': str(opt), 'args': repr(args), 'name': name}
+                    if exp2 is not None:
+                        try:
+                            rec['a2'] = {'val': value_json(exp2)}
+                        except (OutOfDomain, Unsupported):
+                            pass
+                    pairs.append(rec)
                     if mprog is not None:
                         try:
                             ins.append({'args': [value_json(a) for a in args], 'ctx': [ctx_json(fp.FP64)], 'out': bj})
@@ -333,7 +385,7 @@ def run(tier: str) -> int:
         r = by[mm[0]]
         key = {'clause': mm[1]}
         # (a signed zero shows in the sign of an infinity one division later)
-        if mm[1] == 'compiled-result-differs' and 'RTN' in r['src'] and zero_sign_only(r['a'], r['b']):
+        if mm[1] == 'compiled-result-differs' and 'RTN' in r['src'] and (zero_sign_only(r['a'], r['b']) or r.get('a2') == r['b']):
             key['shape'] = 'sign-of-an-exactly-cancelled-sum-under-RTN'
         rep.mismatch(key, {k: r.get(k) for k in ('src', 'opt', 'args', 'a', 'b', 'detail')} | {'clause': mm[1]})
     send = [{k: v for k, v in p.items() if k not in ('opt',)} for p in mprogs]
